@@ -1,8 +1,8 @@
 CONSTANTS
   PinnedEnv = FALSE
-  Accumulate = FALSE
+  Accumulate = TRUE
   PinnedVars = FALSE
 INIT Init
 NEXT Next
-INVARIANTS ImplEqualsResolve Emit
+INVARIANT ImplEqualsResolve
 CHECK_DEADLOCK FALSE
